@@ -28,6 +28,7 @@ added construct has a behaviour that a necessary condition of the property exclu
  W10 an assert statement whose test has a side effect (disappears under python -O).
  W11 a deadline or duration computed from the wall clock (time.time()).
  W12 an identity test (is / is not) against a value: a number, a string, a module constant that is not a sentinel object.
+ W13 a class-private name (obj.__x) used outside a class body: it is not mangled there, the attribute does not exist.
  W7  a lambda / nested function created in a loop that reads the loop variable and is not called in the same iteration
      (late binding: when it runs, every such closure acts on the last item).
 
@@ -48,7 +49,7 @@ EXPLANATION = (
     "(__len__/__bool__ on truth-tested configuration objects, __exit__ returning a true value, __str__/__repr__ returning a "
     "non-string, read hooks that write); W4 no decorator with shared mutable state wraps a function the rules anchor on; W5 "
     "an override of the serve loop's error hook cannot raise; W6 no new container that outlives a call is written from the "
-    "slice; W7 no closure created in a loop keeps reading the loop variable after its iteration (late binding); W8 no override provided by a package base class is hidden by a standard-library base listed before it; W9 no finally clause leaves with return / break / continue (which discards the exception in flight); W10 assert tests are free of side effects (the statement vanishes under python -O); W11 no deadline or duration is computed from the wall clock; W12 identity tests compare with None / True / False, a class, a sentinel created by object(), or another object reference - never with a value (number, string, enum member, module constant), for which equal objects need not be identical.")
+    "slice; W7 no closure created in a loop keeps reading the loop variable after its iteration (late binding); W8 no override provided by a package base class is hidden by a standard-library base listed before it; W9 no finally clause leaves with return / break / continue (which discards the exception in flight); W10 assert tests are free of side effects (the statement vanishes under python -O); W11 no deadline or duration is computed from the wall clock; W12 identity tests compare with None / True / False, a class, a sentinel created by object(), or another object reference - never with a value (number, string, enum member, module constant), for which equal objects need not be identical; W13 no module-level function reaches a class-private attribute by its source spelling (obj.__x is mangled only inside a class body).")
 
 RULE_METHODS = {"W1": "decorator resolution + call-site argument classification", "W2": "reaching definitions + CFG reachability between consumers",
                 "W3": "class-body scan against vlib/known_functions.json + return / store classification",
@@ -56,7 +57,7 @@ RULE_METHODS = {"W1": "decorator resolution + call-site argument classification"
                 "W6": "store scan of module / class / decorator level containers",
                 "W7": "free-variable analysis of closures created in loops + use classification",
                 "W9": "syntax scan of finally clauses", "W10": "call classification inside assert tests (pure builtins / queries vs mutating callees)",
-                "W11": "syntax scan for arithmetic on time.time()", "W12": "operand classification of is / is not comparisons (module-level bindings resolved)",
+                "W11": "syntax scan for arithmetic on time.time()", "W12": "operand classification of is / is not comparisons (module-level bindings resolved)", "W13": "attribute scan of module-level functions",
                 "W8": "left-to-right linearisation of the bases against the names the standard-library bases define"}
 
 SRV = "SimpleJSONRPCServer"
@@ -302,7 +303,7 @@ def check(ck):
     sl = slice_of(prog, prop)
     ck.stat("closed_world_slice_functions", len(sl)) if hasattr(ck, "stat") else None
     errors = []
-    for part in (_w1_memo, _w2_iterators, _w6_containers, _w7_closures, _w9_finally_exits, _w10_assert_effects, _w11_wall_clock, _w12_identity_of_values):
+    for part in (_w1_memo, _w2_iterators, _w6_containers, _w7_closures, _w9_finally_exits, _w10_assert_effects, _w11_wall_clock, _w12_identity_of_values, _w13_private_outside_class):
         try:
             part(ck, sl)
         except AnalysisError as ex:
@@ -709,3 +710,22 @@ def _w12_identity_of_values(ck, sl):
                                "an identity test against a value (%s): an equal value that is another object (an int equal to an enum member, a "
                                "string built at run time) fails the test that `==` passes, and the branch meant for it is skipped" % why, fi.loc(x))
     ck.ok(rule, "identity tests in the slice", "%d operand(s) examined" % n, "")
+
+
+def _w13_private_outside_class(ck, sl):
+    """`obj.__x` in a function that is not defined inside a class: the compiler mangles such names only in class bodies, so the
+    access looks up the literal attribute `__x`, which the object (whose field is `_Class__x`) does not have: AttributeError on a
+    read or an augmented assignment, a stray new attribute on a plain store."""
+    rule = ck.prop + ".W13"
+    n = 0
+    for fi in sl.values():
+        if fi.cls is not None or getattr(fi, "outer", None) is not None and getattr(fi.outer, "cls", None) is not None:
+            continue
+        for x in ast.walk(fi.node):
+            if isinstance(x, ast.Attribute) and x.attr.startswith("__") and not x.attr.endswith("__"):
+                n += 1
+                ck.bad(rule, "%s: `%s`" % (q.fn(fi), dump(x)[:50]),
+                       "`%s` is spelled as a class-private name outside any class body: it is not mangled there, so it does not reach the "
+                       "field `_<Class>%s` - reading or updating it raises AttributeError (and a plain store creates an attribute nobody "
+                       "reads), whatever the statement was meant to maintain is not maintained" % (dump(x)[:50], x.attr), fi.loc(x))
+    ck.ok(rule, "class-private names in module-level functions of the slice", "%d found" % n, "")
